@@ -32,10 +32,7 @@ def nextafter (frm to : Float) : Float :=
       else Float.ofBits (frm.toBits - 1)
     if ret == 0.0 then copysign ret frm else ret
 
-/-- `f64::min(a, b)` (a NaN operand is ignored) and `f64::MAX`.  Not used by the code as it
-stands: the repair proposed for the tiny-width hang (`out/patches/C08-seg-tiny-width-hang.diff`)
-starts the loop from `f64::min(n / width, f64::MAX)`; once it is in the repository, mirror it by
-passing `f64min (n / width) fMax` instead of `n / width` to `segLoop` in `segFactor` below. -/
+/-- `f64::min(a, b)` (a NaN operand is ignored) and `f64::MAX`. -/
 def f64min (a b : Float) : Float := if a.isNaN then b else if b.isNaN then a else if a < b then a else b
 def fMax : Float := fOfBits 0x7fefffffffffffff
 
@@ -60,6 +57,14 @@ def segCell (min max f v : Float) : Option Nat :=
 `none` = the `while` loop does not terminate.  `(1_u64 << order) as f64` is the power of
 two `2^order`, built exactly from its bit pattern (`order < 64`). -/
 def segFactor (min max : Float) (order : Nat) : Option Float :=
+  let width := max - min
+  let n := fOfBits ((1023 + order) <<< 52)
+  segLoop n width 100000 (f64min (n / width) fMax)
+
+/-- `segment_to_segment` as it was before fix 524abd8 (`let mut f = n / width;`): for
+`0 < width ≤ 2^(order-1024)` the quotient is `+∞`, `nextafter(+∞, 0) = +∞`, and the loop
+never ends (`none`).  Kept for reference; `Float` is opaque, so no kernel-checked witness. -/
+def segFactorPrefix (min max : Float) (order : Nat) : Option Float :=
   let width := max - min
   let n := fOfBits ((1023 + order) <<< 52)
   segLoop n width 100000 (n / width)
